@@ -266,6 +266,12 @@ func child(config Config) {
 	// this recursion.
 	os.Setenv(telemetryChildVar, "2")
 	upload := os.Getenv(telemetryUploadVar) == "1"
+	if mode, _ := telemetry.Default.Mode(); mode == "off" {
+		// The mode was switched off after the parent started this process:
+		// nothing may be written any more, not even the uploader's
+		// directories or its debug log.
+		upload = false
+	}
 
 	// The crashmonitor and/or upload process may themselves record counters.
 	counter.Open()
